@@ -54,6 +54,15 @@ cl.get_versions(), cl[i], cl.full_version / epoch / upstream_version / debian_re
 get_package(), cl.distributions / urgency / author / date - each must expose what was written and none may raise
 (keys ``accessor-raises/<accessor>/<Exc>``, ``attribute-differs/<accessor>``).  A big witness is shrunk by dropping
 recipes and bisecting every count (the message names the smallest count that still shows the mechanism).
+
+BYTES LINES WITHOUT LINE ENDS and BLANK-LINE LAYOUT ('cl' cases tagged ``wl`` = bl-matrix / bl-random): three more input
+forms - ``blines-nonl`` (raw.splitlines()), ``bsplit`` (raw.split(b'\\n')[:-1]) and ``biter`` (a generator of such items) -
+in which a blank line of the changelog is an EMPTY item b''.  The class drives models with 0..3 leading blank lines,
+0..3 blank lines between the change paragraphs of a block, after the heading, before the trailer, 1..3 between blocks
+and 0..3 AFTER THE LAST block through all twelve forms; every other ordinary model runs one of the three new forms (rotating)
+on top of the nine.  TRAILING BLANKS ('cl' cases tagged tb-matrix / tb-random): optional block fields ``tb`` (blanks / tabs
+after the date of the trailer) and ``hb`` (after the heading); trailer blanks must come back byte for byte (first, middle,
+last block), heading blanks may come back or be dropped (see ASSUMPTIONS).
 """
 import collections
 import datetime
@@ -105,7 +114,19 @@ RULE = ('Each case is a structured changelog model (1..5 blocks; package over [a
         'XC- / XBS- / XSBC- extension keys, case variants, keys that look like urgency, digits, hyphens - x 4 heading layouts; '
         'every value of a 40-value vocabulary under 3 keys; 1..8 pairs in several orders; with and without urgency comment; '
         'every urgency) and seeded models with 1..6 pairs per heading drawn from the vocabulary, synthesised extension keys and '
-        'random keys/values.')
+        'random keys/values.  '
+        'BLANK-LINE / BYTES-LINES class ("cl" cases tagged wl=bl-matrix / bl-random; 80 fixed + 700 / 24000 seeded models, each '
+        'in all TWELVE input forms): next to the nine forms, three iterables of BYTES lines WITHOUT line end - blines-nonl = '
+        'raw.splitlines(), bsplit = raw.split(b"\\n")[:-1], biter = a generator of those items - in which a blank line of the '
+        'changelog is the empty item b""; the models carry 0..3 leading blank lines, 0..3 blank lines between the change '
+        'paragraphs of a block, 0..2 after the heading and before the trailer, 1..3 between blocks and 0..3 after the last '
+        'block (one at a time and combined, 1..5 blocks); every other ordinary / key=value model is additionally run in ONE of '
+        'the three new forms (rotating with the text length).  '
+        'TRAILING-BLANKS class (wl=tb-matrix / tb-random; 164 fixed + 700 / 24000 seeded models, all twelve forms): 1..8 blanks '
+        '/ tabs after the date of the trailer (field tb) of the only / first / a middle / the last / several / all blocks of '
+        '1..5-block changelogs, with every date shape, and after the heading (field hb; plain, with urgency comment, with '
+        'key=value); a model of these two classes is also non-trivial when it has trailing blanks or a blank line after the '
+        'last block.')
 ASSUMPTIONS = [
     'the generator + render() emit only texts of the deb-changelog(5) grammar quoted in the statement: single spaces in '
     'the header, lower-case "urgency" keyword, ", " between key=value items, two spaces before the date, empty '
@@ -170,6 +191,24 @@ ASSUMPTIONS = [
     'any category during the strict parse is the violation parse-warns-on-wellformed (recorded with '
     'warnings.catch_warnings(record=True) + simplefilter("always"), so neither the once-per-location registry nor the '
     'ambient filters can hide one)',
+    'blank-line / bytes-lines class: an iterable of lines may carry str or bytes items, with or without the line end (the '
+    'parser documents "lists of lines without the trailing newline and those with trailing newlines" and decodes bytes '
+    'items); an empty item ("" / b"") is a blank line of the changelog exactly like "\\n" - it is what raw.splitlines() / '
+    'raw.split(b"\\n") give for a blank line; blank lines AFTER THE LAST block (0..4, model field gap of the last block) are '
+    'part of the exercised grammar since this class exists: the unchanged tree keeps them as trailing lines of the last block, '
+    'parses them silently and reproduces them in every form; the bytes are UTF-8 and contain no CR, so bytes.splitlines() '
+    'cuts at LF only',
+    'trailing-blanks class: blanks (U+0020 / U+0009 only, 1..8) after the date of a trailer are NOT in the grammar quoted by '
+    'the statement, but the repository\'s own test_strange_changelog fixture has such a trailer and the unchanged tree accepts '
+    'them silently under strict=True in all twelve forms and reproduces them byte for byte in str() (measured before this '
+    'class was written); exactly that is judged - no exception, no warning, str() == text incl. the blanks, for the only / '
+    'first / a middle / the last block; block.date / cl.date may expose the date with or without these blanks (the '
+    'unchanged tree keeps them in .date), both are accepted',
+    'trailing-blanks class, headings: blanks after the last item of a heading are accepted silently by the unchanged tree but '
+    'str() DROPS them (the heading is re-built from its items) - the statement is silent about them, so only the weaker claim '
+    'is judged: no exception, no warning, every item exposed as written (the last item modulo trailing blanks) and the '
+    'heading line of str() equal to the written one either with or without its trailing blanks; every other line byte for '
+    'byte.  Models with heading blanks are not used in the second-use classes',
 ]
 ANCHORS = ['debian.changelog:Changelog.parse_changelog',
            'debian.changelog:Changelog._format',
@@ -182,14 +221,16 @@ MUST_REACH = ['debian.changelog:Changelog.parse_changelog',
               'debian.changelog:Changelog._format',
               'debian.changelog:ChangeBlock._format']
 
-TEXTS = {'quick': 16000, 'thorough': 600000}     # random models, total over all shards
+TEXTS = {'quick': 15000, 'thorough': 570000}     # random models, total over all shards (trimmed 6% / 5% for BLS + TBS)
 REUSE = {'quick': 3000, 'thorough': 100000}      # second-use histories (one object, several texts)
 HANDOUT = {'quick': 3000, 'thorough': 100000}    # caller-side mutation of handed-out values
 BIG = {'quick': 400, 'thorough': 30000}          # size class: random big cases (the fixed matrix comes on top)
 KVS = {'quick': 1600, 'thorough': 50000}         # heading key=value pairs beyond urgency: random models
+BLS = {'quick': 700, 'thorough': 24000}          # blank-line layout x bytes lines without line end: random models
+TBS = {'quick': 700, 'thorough': 24000}          # trailing blanks after the date / the heading: random models
 
 FLOORS = {
-    # ~50% of what a run on the current tree measures (quick: 16353 ordinary cases; thorough: 600353);
+    # ~50% of what a run on the current tree measures (quick: 15353 ordinary cases; thorough: 570353; re-checked after the trim);
     # the floors of the second-use classes are added below (_Q2 / _T2)
     'quick': {'nontrivial': 7000,
               'monitors': {'M': 73000, 'M.attrs': 170000},
@@ -358,6 +399,45 @@ FLOORS['thorough']['counters'].update(_T3)
 FLOORS['quick']['monitors'].update({'M.big': 4200, 'M.kv': 9200, 'M.accessors': 14000})
 FLOORS['thorough']['monitors'].update({'M.big': 137000, 'M.kv': 227000, 'M.accessors': 450000})
 
+# floors of the blank-line / bytes-lines-without-line-end class (bl:*, nonl-bytes:*, form:<new form>) and of the
+# trailing-blanks class (tb:*): about half of the minimum over quick seeds 0-3 / of thorough seed 0 on the unchanged tree -
+# a run that never hands over an empty bytes item at each blank-line position, or never has trailing blanks after the
+# date of a first / middle / last block, is inconclusive, not held
+_Q4 = {'form:blines-nonl': 3700, 'form:bsplit': 3600, 'form:biter': 3600,
+       'nonl-bytes:empty-item:leading-blank-line': 4500, 'nonl-bytes:empty-item:blank-line-in-block': 11000,
+       'nonl-bytes:empty-item:blank-between-change-paragraphs': 5900,
+       'nonl-bytes:empty-item:blank-line-between-blocks': 6800, 'nonl-bytes:empty-item:blank-line-after-last-block': 1200,
+       'bl:case': 390, 'bl:case:bl-matrix': 80, 'bl:case:bl-random': 350, 'bl:leading-blank-lines': 280,
+       'bl:blank-between-change-paragraphs': 300, 'bl:blank-between-blocks': 280, 'bl:two-or-more-blanks-between-blocks': 190,
+       'bl:blank-after-last-block': 240, 'bl:no-blank-after-heading': 120,
+       'tb:case': 430, 'tb:case:tb-matrix': 164, 'tb:case:tb-random': 350,
+       'tb:trailer-blanks:only-block': 70, 'tb:trailer-blanks:first-block': 170, 'tb:trailer-blanks:middle-block': 230,
+       'tb:trailer-blanks:last-block': 170, 'tb:trailer-blanks:followed-by-another-block': 400,
+       'tb:trailer-blanks:spaces-only': 310, 'tb:trailer-blanks:with-tab': 340, 'tb:trailer-blanks:count:1': 180,
+       'tb:trailer-blanks:count:2': 200, 'tb:trailer-blanks:count:3+': 250,
+       'tb:heading-blanks:only-block': 20, 'tb:heading-blanks:first-block': 65, 'tb:heading-blanks:middle-block': 90,
+       'tb:heading-blanks:last-block': 65, 'tb:heading-blanks:after-urgency': 160,
+       'tb:heading-blanks:after-urgency-comment': 28, 'tb:heading-blanks:after-key-value': 60}
+_T4 = {'form:blines-nonl': 127000, 'form:bsplit': 127000, 'form:biter': 127000,
+       'nonl-bytes:empty-item:leading-blank-line': 163000, 'nonl-bytes:empty-item:blank-line-in-block': 380000,
+       'nonl-bytes:empty-item:blank-between-change-paragraphs': 216000,
+       'nonl-bytes:empty-item:blank-line-between-blocks': 245000, 'nonl-bytes:empty-item:blank-line-after-last-block': 38000,
+       'bl:case': 12000, 'bl:case:bl-matrix': 80, 'bl:case:bl-random': 12000, 'bl:leading-blank-lines': 9600,
+       'bl:blank-between-change-paragraphs': 9700, 'bl:blank-between-blocks': 9000,
+       'bl:two-or-more-blanks-between-blocks': 6400, 'bl:blank-after-last-block': 8000, 'bl:no-blank-after-heading': 4300,
+       'tb:case': 12000, 'tb:case:tb-matrix': 164, 'tb:case:tb-random': 12000,
+       'tb:trailer-blanks:only-block': 2000, 'tb:trailer-blanks:first-block': 5400, 'tb:trailer-blanks:middle-block': 7200,
+       'tb:trailer-blanks:last-block': 5400, 'tb:trailer-blanks:followed-by-another-block': 12700,
+       'tb:trailer-blanks:spaces-only': 9000, 'tb:trailer-blanks:with-tab': 11000, 'tb:trailer-blanks:count:1': 5000,
+       'tb:trailer-blanks:count:2': 7100, 'tb:trailer-blanks:count:3+': 8000,
+       'tb:heading-blanks:only-block': 400, 'tb:heading-blanks:first-block': 1900, 'tb:heading-blanks:middle-block': 2800,
+       'tb:heading-blanks:last-block': 1900, 'tb:heading-blanks:after-urgency': 3800,
+       'tb:heading-blanks:after-urgency-comment': 1200, 'tb:heading-blanks:after-key-value': 2100}
+FLOORS['quick']['counters'].update(_Q4)
+FLOORS['thorough']['counters'].update(_T4)
+FLOORS['quick']['monitors'].update({'M.bl': 4600, 'M.tb': 5100})
+FLOORS['thorough']['monitors'].update({'M.bl': 144000, 'M.tb': 144000})
+
 # ---------------------------------------------------------------------------
 # grammar (render + independent validity check of a model)
 
@@ -377,6 +457,11 @@ G_DATE = re.compile(r'((%s), )?\d{1,2} (%s) \d{4} \d\d:\d\d:\d\d [+-]\d{4}\Z' % 
                     re.ASCII)
 
 FORMS = ('str', 'bytes', 'lines', 'lines-nl', 'blines', 'file', 'bfile', 'iter', 'method')
+# iterables of BYTES lines WITHOUT line end (a blank line is the empty item b''): raw.splitlines(), raw.split(b'\n')[:-1],
+# a generator of such items
+NONL_BYTES_FORMS = ('blines-nonl', 'bsplit', 'biter')
+ALL_FORMS = FORMS + NONL_BYTES_FORMS
+BLANKS = ' \t'
 SPLITTING_FORMS = ('str', 'bytes', 'method')   # the library splits the text into lines itself
 
 
@@ -394,7 +479,7 @@ def grammar_problem(case):
             return 'unknown kind'
         if not isinstance(case.get('lead', 0), int) or not 0 <= case.get('lead', 0) <= 4:
             return 'lead'
-        if case.get('form') is not None and case['form'] not in FORMS:
+        if case.get('form') is not None and case['form'] not in ALL_FORMS:
             return 'form'
         blocks = case['blocks']
         if not blocks:
@@ -436,8 +521,12 @@ def grammar_problem(case):
                 return 'date'
             gap = b.get('gap', 0)
             last = i == len(blocks) - 1
-            if not isinstance(gap, int) or (last and gap != 0) or (not last and not 1 <= gap <= 4):
+            if not isinstance(gap, int) or (last and not 0 <= gap <= 4) or (not last and not 1 <= gap <= 4):
                 return 'gap'
+            for f in ('tb', 'hb'):
+                x = b.get(f, '')
+                if not (isinstance(x, str) and len(x) <= 8 and all(ch in BLANKS for ch in x)):
+                    return 'trailing blanks'
     except (KeyError, TypeError, ValueError, IndexError) as e:
         return 'malformed model (%s)' % type(e).__name__
     return None
@@ -449,11 +538,11 @@ def header(b):
         s += ' ' + b['c']
     for k, v in b.get('kv', []):
         s += ', %s=%s' % (k, v)
-    return s
+    return s + b.get('hb', '')
 
 
 def trailer(b):
-    return ' -- %s <%s>  %s' % (b['n'], b['e'], b['dt'])
+    return ' -- %s <%s>  %s%s' % (b['n'], b['e'], b['dt'], b.get('tb', ''))
 
 
 def render(case):
@@ -461,7 +550,8 @@ def render(case):
     for _ in range(case.get('lead', 0)):
         lines.append('')
         classes.append('leading-blank-line')
-    for b in case['blocks']:
+    nb = len(case['blocks'])
+    for i, b in enumerate(case['blocks']):
         lines.append(header(b))
         classes.append('header-line')
         for l in b['body']:
@@ -471,7 +561,7 @@ def render(case):
         classes.append('trailer-line')
         for _ in range(b.get('gap', 0)):
             lines.append('')
-            classes.append('blank-line-between-blocks')
+            classes.append('blank-line-between-blocks' if i < nb - 1 else 'blank-line-after-last-block')
     return '\n'.join(lines) + '\n', lines, classes
 
 
@@ -483,6 +573,10 @@ def is_nontrivial(case):
             return True
         if inner_blank(b):
             return True
+        if b.get('tb') or b.get('hb'):
+            return True
+    if str(case.get('wl', '')).startswith(('bl-', 'tb-')) and case['blocks'][-1].get('gap'):
+        return True
     return False
 
 
@@ -762,7 +856,178 @@ def matrix():
     return out
 
 
+# ---------------------------------------------------------------------------
+# BLANK-LINE LAYOUT x BYTES LINES WITHOUT LINE END (wl = bl-*), TRAILING BLANKS after the date / the heading (wl = tb-*)
+
+TB_POOL = [' ', '  ', '   ', '\t', ' \t', '\t ', '        ']
+TB_DATES = ['Mon, 01 Jan 2024 00:00:00 +0000', '1 Jan 2024 00:00:00 +0000', 'Thu, 14 Jun 2007 19:54:13 +0100',
+            'Sun, 7 Feb 1999 12:00:00 -0530', '07 Feb 1999 12:00:60 -1200', 'Fri, 31 Dec 2038 23:59:59 +1400']
+
+
+def bl_matrix():
+    """Fixed blank-line layouts (same for every seed and tier); every model runs in all twelve input forms."""
+    out = []
+
+    def blk(i, after=1, inner=1, before=1, gap=1, paras=2):
+        body = [''] * after
+        for j in range(paras):
+            body.append('  * change %d of entry %d' % (j, i))
+            body.append('    continued')
+            if j < paras - 1:
+                body.extend([''] * inner)
+        body.extend([''] * before)
+        return dict(BASE, v='%d.0-1' % (9 - i), body=body, gap=gap)
+
+    def cl(lead, blocks, tail):
+        blocks[-1]['gap'] = tail
+        out.append({'kind': 'cl', 'lead': lead, 'blocks': blocks, 'wl': 'bl-matrix'})
+
+    for lead in range(4):
+        cl(lead, [blk(0)], 0)
+    for tail in (1, 2, 3):
+        cl(0, [blk(0)], tail)
+    for inner in range(4):
+        cl(0, [blk(0, inner=inner, paras=3)], 0)
+    for after in range(3):
+        for before in range(3):
+            cl(0, [blk(0, after=after, before=before)], 0)
+    for gap in (1, 2, 3):
+        cl(0, [blk(0, gap=gap), blk(1)], 0)
+        cl(0, [blk(0, gap=gap), blk(1, gap=gap), blk(2)], 0)
+    for lead in range(3):
+        for gap in (1, 2):
+            for tail in range(3):
+                for inner in range(3):
+                    cl(lead, [blk(0, inner=inner, gap=gap), blk(1, inner=inner, gap=gap), blk(2, inner=inner)], tail)
+    return out
+
+
+def gen_bl_model(r, wide):
+    nb = r.choice([1, 1, 2, 2, 3, 3, 4, 5])
+    blocks = [gen_block(r, wide) for _ in range(nb)]
+    for b in blocks:
+        # more blank lines between the change paragraphs than the ordinary stream has
+        body, new = b['body'], []
+        for j, l in enumerate(body):
+            new.append(l)
+            if l != '' and j + 1 < len(body) and body[j + 1] != '' and r.random() < 0.45:
+                new.extend([''] * r.choice([1, 1, 2, 3]))
+        b['body'] = new
+        b['gap'] = r.choice([1, 1, 2, 3])
+    blocks[-1]['gap'] = r.choice([0, 0, 1, 1, 2, 3])
+    return {'kind': 'cl', 'lead': r.choice([0, 1, 1, 2, 3]), 'blocks': blocks, 'wl': 'bl-random'}
+
+
+def gen_blanks(r):
+    if r.random() < 0.7:
+        return r.choice(TB_POOL)
+    return ''.join(r.choice(BLANKS) for _ in range(r.randint(1, 6)))
+
+
+def tb_matrix():
+    """Fixed trailing-blank models (same for every seed and tier); every model runs in all twelve input forms."""
+    out = []
+
+    def cl(blocks, lead=0, tail=0):
+        for i, b in enumerate(blocks):
+            b['gap'] = 1
+            b['v'] = '%d.0-1' % (len(blocks) - i)
+            b['body'] = ['', '  * entry %d' % i, '']
+        blocks[-1]['gap'] = tail
+        out.append({'kind': 'cl', 'lead': lead, 'blocks': blocks, 'wl': 'tb-matrix'})
+
+    for x in TB_POOL:
+        cl([dict(BASE, tb=x)])
+        cl([dict(BASE, hb=x)])
+        cl([dict(BASE, hb=x, c='(security fix)')])
+        cl([dict(BASE, hb=x, kv=[['binary-only', 'yes']])])
+        cl([dict(BASE, hb=x, tb=x, c='(x)', kv=[['X-Foo', 'a b'], ['k', '0']])])
+    for dt in TB_DATES:
+        for x in (' ', '   ', '\t'):
+            cl([dict(BASE, dt=dt, tb=x)])
+    cl([dict(BASE, tb='  ')], tail=2)
+    cl([dict(BASE, tb=' ')], lead=1, tail=1)
+    cl([dict(BASE, tb='  ', n='Reinhard Tartler', e='siretart@tauware.de', dt='Thu, 14 Jun 2007 19:54:13 +0100')])
+    for nb, picks in ((2, ((0,), (1,), (0, 1))),
+                      (3, ((0,), (1,), (2,), (0, 1, 2))),
+                      (5, ((0,), (2,), (4,), (1, 3), (0, 1, 2, 3, 4)))):
+        for pick in picks:
+            for fields in (('tb',), ('hb',), ('tb', 'hb')):
+                for x in (' ', '   ', '\t'):
+                    blocks = [dict(BASE) for _ in range(nb)]
+                    for i in pick:
+                        for f in fields:
+                            blocks[i][f] = x
+                    cl(blocks, tail=1 if x == '   ' else 0)
+    return out
+
+
+def gen_tb_model(r, wide):
+    nb = r.choice([1, 2, 3, 3, 4, 5])
+    blocks = [gen_block(r, wide) for _ in range(nb)]
+    for b in blocks[:-1]:
+        b['gap'] = r.choice([1, 1, 2])
+    blocks[-1]['gap'] = r.choice([0, 0, 0, 1, 2])
+    for b in blocks:
+        if r.random() < 0.5:
+            b['tb'] = gen_blanks(r)
+        if r.random() < 0.2:
+            b['hb'] = gen_blanks(r)
+    if not any(b.get('tb') for b in blocks):
+        blocks[r.randrange(nb)]['tb'] = gen_blanks(r)
+    return {'kind': 'cl', 'lead': r.choice([0, 0, 1]), 'blocks': blocks, 'wl': 'tb-random'}
+
+
+def block_position(i, nb):
+    if nb == 1:
+        return 'only-block'
+    return 'first-block' if i == 0 else 'last-block' if i == nb - 1 else 'middle-block'
+
+
+def note_bl(ctx, case):
+    c = ctx.count
+    c('bl:case')
+    c('bl:case:' + case['wl'])
+    blocks = case['blocks']
+    if case.get('lead'):
+        c('bl:leading-blank-lines')
+    if any(inner_blank(b) for b in blocks):
+        c('bl:blank-between-change-paragraphs')
+    if len(blocks) > 1:
+        c('bl:blank-between-blocks')
+        if any(b.get('gap', 0) > 1 for b in blocks[:-1]):
+            c('bl:two-or-more-blanks-between-blocks')
+    if blocks[-1].get('gap'):
+        c('bl:blank-after-last-block')
+    if any(b['body'] and b['body'][0] != '' for b in blocks):
+        c('bl:no-blank-after-heading')
+
+
+def note_tb(ctx, case):
+    c = ctx.count
+    c('tb:case')
+    c('tb:case:' + case['wl'])
+    nb = len(case['blocks'])
+    for i, b in enumerate(case['blocks']):
+        pos = block_position(i, nb)
+        if b.get('tb'):
+            c('tb:trailer-blanks:' + pos)
+            c('tb:trailer-blanks:%s' % ('with-tab' if '\t' in b['tb'] else 'spaces-only'))
+            c('tb:trailer-blanks:count:%s' % (len(b['tb']) if len(b['tb']) < 3 else '3+'))
+            if i < nb - 1:
+                c('tb:trailer-blanks:followed-by-another-block')
+        if b.get('hb'):
+            c('tb:heading-blanks:' + pos)
+            c('tb:heading-blanks:after-%s' % ('key-value' if b.get('kv') else 'urgency-comment' if b.get('c') else 'urgency'))
+
+
 def cases(ctx):
+    for i, c in enumerate(bl_matrix()):
+        if ctx.mine(i):
+            yield c
+    for i, c in enumerate(tb_matrix()):
+        if ctx.mine(i):
+            yield c
     for i, m in enumerate(matrix()):
         if ctx.mine(i):
             m['matrix'] = 1
@@ -786,7 +1051,13 @@ def cases(ctx):
     rh = ctx.rng('handout')
     rb = ctx.rng('big')
     rk = ctx.rng('kv')
+    rl = ctx.rng('bl')
+    rt = ctx.rng('tb')
     wide = ctx.tier == 'thorough'
+    for _ in range(ctx.size(BLS['quick'], BLS['thorough'])):
+        yield gen_bl_model(rl, wide or rl.random() < 0.3)
+    for _ in range(ctx.size(TBS['quick'], TBS['thorough'])):
+        yield gen_tb_model(rt, wide or rt.random() < 0.3)
     for _ in range(ctx.size(BIG['quick'], BIG['thorough'])):
         yield gen_big(rb, wide)
     for _ in range(ctx.size(KVS['quick'], KVS['thorough'])):
@@ -834,6 +1105,13 @@ def build_input(form, text, lines):
         return io.BytesIO(text.encode('utf-8'))
     if form == 'iter':
         return (l for l in lines)
+    if form in NONL_BYTES_FORMS:
+        raw = text.encode('utf-8')
+        items = raw.split(b'\n')[:-1] if form == 'bsplit' else raw.splitlines()
+        if items != [l.encode('utf-8') for l in lines]:
+            # cannot happen for a text of the grammar (no CR, LF only between lines); never hand over another text
+            items = [l.encode('utf-8') for l in lines]
+        return (x for x in items) if form == 'biter' else items
     raise ValueError(form)
 
 
@@ -887,17 +1165,31 @@ def check_form(case, form, text, lines, classes, stats, input_lines=None, deep=F
     return out + judge_object(cl, case, form, text, lines, classes, stats, deep=deep)
 
 
+def _date_seen(b, have):
+    """A trailer with trailing blanks: .date may expose the date with or without them (see ASSUMPTIONS)."""
+    if b.get('tb') and isinstance(have, str) and have == b['dt'] + b['tb']:
+        return b['dt']
+    return have
+
+
 def block_problems(b, g):
     """[(attribute name, written, parsed)] for one model block `b` and one live block `g`."""
+    urgency, pairs = g.urgency, [list(x) for x in g.other_pairs.items()]
+    if b.get('hb'):
+        # blanks after the heading: the last item may be exposed with or without them (see ASSUMPTIONS)
+        if pairs and isinstance(pairs[-1][1], str):
+            pairs[-1][1] = pairs[-1][1].rstrip(BLANKS)
+        if isinstance(urgency, str):
+            urgency = urgency.rstrip(BLANKS)
     want = (('package', b['p'], g.package),
             ('version', b['v'], str(g.version)),
             ('distributions', ' '.join(b['d']), g.distributions),
-            ('urgency', b['u'], g.urgency),
+            ('urgency', b['u'], urgency),
             ('urgency-comment', b.get('c', ''), (g.urgency_comment or '').strip()),
-            ('extra-key-values', [list(x) for x in b.get('kv', [])], [list(x) for x in g.other_pairs.items()]),
+            ('extra-key-values', [list(x) for x in b.get('kv', [])], pairs),
             ('change-lines', [l for l in b['body'] if l != ''], [l for l in g.changes() if l.strip() != '']),
             ('author', '%s <%s>' % (b['n'], b['e']), g.author),
-            ('date', b['dt'], g.date))
+            ('date', b['dt'], _date_seen(b, g.date)))
     return [(name, w, have) for name, w, have in want if w != have]
 
 
@@ -998,6 +1290,10 @@ def deep_accessors(cl, case, form, stats):
                            ('cl.date', first['dt'], lambda: cl.date)):
         ok, have = read(name, fn)
         if ok:
+            if name == 'cl.date':
+                have = _date_seen(first, have)
+            elif name == 'cl.urgency' and first.get('hb') and isinstance(have, str):
+                have = have.rstrip(BLANKS)
             expect(name, want, have)
     return out
 
@@ -1015,13 +1311,19 @@ def judge_object(cl, case, form, text, lines, classes, stats, deep=False):
     if got != text:
         glines = got.split('\n')
         elines = lines + ['']
+        # a heading written with trailing blanks may come back with or without them (see ASSUMPTIONS)
+        alt = {}
+        if any(b.get('hb') for b in case['blocks']):
+            heads = [j for j, c in enumerate(classes) if c == 'header-line']
+            alt = dict((j, header(dict(b, hb=''))) for j, b in zip(heads, case['blocks']) if b.get('hb'))
         i = 0
-        while i < len(glines) and i < len(elines) and glines[i] == elines[i]:
+        while i < len(glines) and i < len(elines) and (glines[i] == elines[i] or (i in alt and glines[i] == alt[i])):
             i += 1
-        cls = classes[i] if i < len(classes) else 'end-of-text'
-        out.append(('roundtrip-differs/' + cls,
-                    '[%s] str(Changelog(T)) != T at line %d: wrote %s, got %s' % (
-                        form, i + 1, _r(elines[i] if i < len(elines) else '<end>'), _r(glines[i] if i < len(glines) else '<end>'))))
+        if not (alt and i == len(glines) == len(elines)):
+            cls = classes[i] if i < len(classes) else 'end-of-text'
+            out.append(('roundtrip-differs/' + cls,
+                        '[%s] str(Changelog(T)) != T at line %d: wrote %s, got %s' % (
+                            form, i + 1, _r(elines[i] if i < len(elines) else '<end>'), _r(glines[i] if i < len(glines) else '<end>'))))
     # -- blocks and attributes
     blocks = case['blocks']
     try:
@@ -1056,12 +1358,19 @@ def _unformed(res):
     return [(k, m.split('] ', 1)[-1]) for k, m in res]
 
 
-def evaluate(case, stats=None, mon=None, deep_forms=1):
+def evaluate(case, stats=None, mon=None, deep_forms=1, every_form=False):
     """Run one model through every requested input form.  Returns [(key, msg)] with one entry per key.
     The per-accessor sweep (deep_accessors) runs in `deep_forms` of the forms of a model (rotating with the text
     length: what an accessor exposes should not depend on how the text came in; the sweep costs as much as the parse)."""
     text, lines, classes = render(case)
-    forms = [case['form']] if case.get('form') else FORMS
+    if case.get('form'):
+        forms = [case['form']]
+    elif every_form or str(case.get('wl', '')).startswith(('bl-', 'tb-')):
+        forms = ALL_FORMS          # the blank-line / trailing-blanks classes (and witnesses being shrunk): all twelve
+    elif mon == 'M.big':
+        forms = FORMS              # size class: the nine forms it always had (cost)
+    else:
+        forms = FORMS + (NONL_BYTES_FORMS[len(text) % len(NONL_BYTES_FORMS)],)
     has_break = any(ch in text for ch in NON_LF_BREAKS)
     if deep_forms == 1 and not case.get('wl') and len(text) % 3:
         deep_forms = 0            # untagged ordinary models: a third of them is enough (cost)
@@ -1073,6 +1382,13 @@ def evaluate(case, stats=None, mon=None, deep_forms=1):
             stats['form:' + form] += 1
             if mon:
                 stats[mon] += 1
+            if form in NONL_BYTES_FORMS:
+                # where this case hands over an EMPTY bytes item
+                for cls in set(classes):
+                    if 'blank' in cls:
+                        stats['nonl-bytes:empty-item:' + cls] += 1
+                if any(inner_blank(b) for b in case['blocks']):
+                    stats['nonl-bytes:empty-item:blank-between-change-paragraphs'] += 1
         res = check_form(case, form, text, lines, classes, stats, deep=fi in deep_at)
         if res and has_break and form in SPLITTING_FORMS:
             # mechanism test: the disagreement is "the library's own line splitting cut a change line at a
@@ -1128,7 +1444,8 @@ EMPTY_TEXTS = ['', '\n', '\n\n\n', '  \n', ' ']
 
 
 def _is_model(m):
-    return isinstance(m, dict) and m.get('kind') == 'cl' and m.get('form') is None and grammar_problem(m) is None
+    return (isinstance(m, dict) and m.get('kind') == 'cl' and m.get('form') is None and grammar_problem(m) is None
+            and not any(b.get('hb') for b in m['blocks']))      # heading blanks: first-use classes only (see ASSUMPTIONS)
 
 
 def _strs(x):
@@ -2743,13 +3060,20 @@ def _variants(case):
     if case.get('lead'):
         yield dict(case, lead=0)
     if not case.get('form'):
-        for f in FORMS:
+        for f in ALL_FORMS:
             yield dict(case, form=f)
     for i, b in enumerate(blocks):
         def sub(**kw):
             nb = [dict(x) for x in blocks]
             nb[i].update(kw)
             return dict(case, blocks=nb)
+        for f in ('tb', 'hb'):
+            if b.get(f):
+                yield sub(**{f: ''})
+                if len(b[f]) > 1:
+                    yield sub(**{f: b[f][:1]})
+        if i == len(blocks) - 1 and b.get('gap'):
+            yield sub(gap=0)
         if b.get('kv'):
             yield sub(kv=[])
             if len(b['kv']) > 1:
@@ -2790,7 +3114,7 @@ def shrink(case, key, budget=400):
             if grammar_problem(cand) is not None:
                 continue
             try:
-                keys = [k for k, _m in evaluate(cand)]
+                keys = [k for k, _m in evaluate(cand, every_form=True)]
             except Exception:
                 continue
             if key in keys:
@@ -2855,7 +3179,7 @@ def report(ctx, case, key, msg):
     if kind == 'cl':
         small = shrink(case, key)
         allforms = {k: v for k, v in small.items() if k != 'form'}
-        for k2, m2 in evaluate(allforms):      # message for the shrunk witness, listing every form that shows it
+        for k2, m2 in evaluate(allforms, every_form=True):      # message for the shrunk witness, listing every form that shows it
             if k2 == key:
                 msg = m2
         text = render(small)[0]
@@ -2906,6 +3230,12 @@ def run_case(ctx, case):
         if str(case.get('wl', '')).startswith('kv-'):
             note_kv(ctx, case)
             ctx.mon('M.kv', stats.get('M', 0))
+        elif str(case.get('wl', '')).startswith('bl-'):
+            note_bl(ctx, case)
+            ctx.mon('M.bl', stats.get('M', 0))
+        elif str(case.get('wl', '')).startswith('tb-'):
+            note_tb(ctx, case)
+            ctx.mon('M.tb', stats.get('M', 0))
         note_features(ctx, case)
         if is_nontrivial(case):
             ctx.nontrivial(case)
@@ -2928,6 +3258,8 @@ def note_features(ctx, case):
         c('feat:multi-block')
     if case.get('lead'):
         c('feat:lead-blank')
+    if blocks[-1].get('gap'):
+        c('feat:blank-after-last-block')
     c('blocks', len(blocks))
     for b in blocks:
         if b.get('c'):
@@ -2971,20 +3303,26 @@ def note_features(ctx, case):
             c('feat:non-LF-line-boundary-in-change')
         if any(ord(ch) > 127 for ch in b['n']) or '(' in b['n'] or '.' in b['n']:
             c('feat:hostile-maintainer-name')
+        if b.get('tb'):
+            c('feat:trailer-trailing-blanks')
+        if b.get('hb'):
+            c('feat:heading-trailing-blanks')
         if ':' in b['v']:
             c('feat:version-epoch')
         if '~' in b['v']:
             c('feat:version-tilde')
 
 
-LEVEL_TEXT = ('Runtime monitoring: 1.6e4 (quick) / 6e5 (thorough) seeded structured changelog models plus a fixed '
+LEVEL_TEXT = ('Runtime monitoring: 1.5e4 (quick) / 5.7e5 (thorough) seeded structured changelog models plus a fixed '
               'one-feature-at-a-time matrix (353 models) are rendered to text by the grammar of the statement and pushed '
               'through the live debian.changelog.Changelog in nine input forms (str, bytes, line lists with/without '
               'newline, bytes lines, text/binary file objects, iterator, Changelog().parse_changelog) with strict=True '
               'under warnings.catch_warnings(record=True); the boundary oracle requires no exception, no warning, '
               'str(result) == text byte for byte, and block count / package / version / distributions / urgency / '
               'urgency comment / extra key=values in order / change lines / author / date equal to the model, in file '
-              'order.  Held-on-observed, not a proof: reach is the generated models (feature counters and anchor line '
+              'order.  Every model additionally runs in one of three forms of bytes lines without line end (empty item = '
+              'blank line); two further classes (blank-line layouts incl. blank lines after the last block; blanks after the '
+              'date of a trailer / after a heading) run in all twelve forms.  Held-on-observed, not a proof: reach is the generated models (feature counters and anchor line '
               'coverage are in the evidence).')
 LEVEL_NOTE = ('Trusted: CPython, the generator and its 10-line render() (re-validated per case by an independent grammar '
               'check; a case outside the grammar makes the run inconclusive).  Domain: exactly the grammar of the '
